@@ -24,6 +24,22 @@ def ansatz_catalogue(tier: str):
             out.append((f"SymmetryPreserving({n},{reps})", lambda n=n, r=reps: SymmetryPreserving(n, r), {"N"}))
             out.append((f"SymmetryPreservingReal({n},{reps})", lambda n=n, r=reps: SymmetryPreservingReal(n, r), {"N", "real"}))
             out.append((f"Z2SymmetryPreservingReal({n},{reps})", lambda n=n, r=reps: Z2SymmetryPreservingReal(n, r), {"parity", "real"}))
+    # explicit entangler maps ("all entangler maps"): the library's CIRCULAR / FULL patterns (CIRCULAR has the descending
+    # wrap-around pair (n-1, 0)) and hand-written maps with descending and repeated pairs
+    from quri_parts.algo.ansatz.two_local import EntanglementPatternType, build_entangler_map
+
+    for n in (3, 4) + ((5,) if big else ()):
+        maps = {
+            "circular": build_entangler_map(n, [EntanglementPatternType.CIRCULAR]),
+            "full": build_entangler_map(n, [EntanglementPatternType.FULL]),
+            "descending": [[(n - 1, n - 2), (1, 0)]],
+            "mixed": [[(0, n - 1), (n - 1, 1)], [(1, 0), (0, 1)]],
+        }
+        for mname, em in maps.items():
+            r = len(em)
+            out.append((f"SymmetryPreserving({n},{r},map={mname})", lambda n=n, r=r, em=em: SymmetryPreserving(n, r, em), {"N"}))
+            out.append((f"SymmetryPreservingReal({n},{r},map={mname})", lambda n=n, r=r, em=em: SymmetryPreservingReal(n, r, em), {"N", "real"}))
+            out.append((f"Z2SymmetryPreservingReal({n},{r},map={mname})", lambda n=n, r=r, em=em: Z2SymmetryPreservingReal(n, r, em), {"parity", "real"}))
     for n in (2, 4) + ((6,) if big else ()):
         for d in (1, 2):
             # the U1/U2 exchange gates act on neighbouring qubits of opposite spin: particle number only
